@@ -464,10 +464,20 @@ def gen_redact_tables(src_path):
 
 def generators(dump_dir):
     """(file name under coq/Gen, thunk producing its text)"""
-    return [
+    gens = [
         ("RoomRules.v", lambda: gen_room_rules(os.path.join(dump_dir, "room_rules.txt"))),
         ("RedactTables.v", lambda: gen_redact_tables("/repo/crates/ruma-common/src/canonical_json.rs")),
     ]
+    # plug-in translators: tools/translators/<name>.py exposing generators(dump_dir)
+    import importlib.util
+    tdir = os.path.join(os.path.dirname(os.path.abspath(__file__)), "translators")
+    for f in sorted(os.listdir(tdir)) if os.path.isdir(tdir) else []:
+        if f.endswith(".py") and not f.startswith("_"):
+            spec = importlib.util.spec_from_file_location("translators_" + f[:-3], os.path.join(tdir, f))
+            mod = importlib.util.module_from_spec(spec)
+            spec.loader.exec_module(mod)
+            gens += list(mod.generators(dump_dir))
+    return gens
 
 
 def write_if_changed(path, text):
